@@ -459,6 +459,9 @@ func (s *Server) handleConnReceiver(module *Module, crd *rsyncwire.CountingReade
 		},
 		Dest: module.Path,
 		Env: &rsyncos.Env{
+			// A daemon has no standard output: whatever the transfer code
+			// prints for the user of a command-line client goes nowhere.
+			Stdout: io.Discard,
 			Stderr: s.stderr,
 		},
 		Conn:     c,
@@ -561,6 +564,9 @@ func (s *Server) handleConnSender(module *Module, crd *rsyncwire.CountingReader,
 		Conn:   c,
 		Seed:   sessionChecksumSeed,
 		Env: &rsyncos.Env{
+			// A daemon has no standard output: whatever the transfer code
+			// prints for the user of a command-line client goes nowhere.
+			Stdout: io.Discard,
 			Stderr: s.stderr,
 		},
 		Progress: progress.NewPrinter(io.Discard, time.Now),
